@@ -45,7 +45,7 @@ CONSTANTS
     Lazies,       \* MC: subset of BOOLEAN used as LAZY flag
     Dev,          \* what-if switches: deviations of EARLIER versions of the code (each repaired by a fix: commit)
                   \*   "versionless_mismatch" (before be112cf), "lazy_key_reuse" (before b191088),
-                  \*   "mem_conflict_dead" (before bd3a825), "closure_replace" (before 06f5b7d); {} = the current code
+                  \*   "mem_conflict_dead" (before bd3a825), "closure_replace" (before 06f5b7d), "lazy_dep_accepted" (never in the code: seeded/C17-3); {} = the current code
     Known         \* MC: <<clause, cause>> pairs the DESIGN (I-layer) is known to break (see c17.py)
 
 VARIABLES disk, path, loaded, last, ncalls
@@ -171,7 +171,12 @@ IRegister(dk, gp, L, d, f, lz) ==
 IDeps(dk, gp, outs, deps, i) ==
     IF i > Len(deps) THEN outs
     ELSE IDeps(dk, gp,
-               UNION {IF o.res # "ok" THEN {o} ELSE IReq(dk, gp, o.L, gp, deps[i].ns, deps[i].ver, FALSE)
+               \* each dependency is required NON-lazily: a lazily registered one is re-read from its file and
+               \* brings in ITS dependencies (what-if "lazy_dep_accepted": a lazily registered dependency of the
+               \* recorded version is taken as loaded)
+               UNION {IF o.res # "ok" THEN {o}
+                      ELSE IF "lazy_dep_accepted" \in Dev /\ IStatus(o.L, deps[i].ns, deps[i].ver, TRUE) = "hit" THEN {o}
+                      ELSE IReq(dk, gp, o.L, gp, deps[i].ns, deps[i].ver, FALSE)
                       : o \in outs},
                deps, i + 1)
 
@@ -360,6 +365,8 @@ Ante(k, dk, s, c, o) ==
          NewSpeaks(dk, s, c) /\ AllGood(dk, s, c) /\ c.lazy
     [] k = "FailRegistersNot" ->
          c.op \in MutOps /\ ~Was(dk, s, c) /\ o.res # "ok"
+    [] k = "ClosureLoaded" ->
+         c.op \in MutOps /\ ~c.lazy /\ o.res = "ok"
     [] k = "OnlyClosure" ->
          c.op \in MutOps
     [] k = "ZoneConsistent" ->
@@ -431,6 +438,10 @@ Conseq(k, dk, s, c, o, t) ==
                    \*  eagerly, and brings in ITS recorded dependencies, which Nodes does not follow)
                    /\ \/ TouchesLazy(dk, s, e)
                       \/ \E x \in Nodes(dk, s, e) : x.ns = n /\ x.ver = t.L[n].c.ver
+    \* "Loading a namespace also loads every dependency recorded in it": after a successful non-lazy
+    \* call the whole dependency closure of the target - followed through whatever is registered,
+    \* lazily registered dependencies included - is registered
+    [] k = "ClosureLoaded" -> n \in DOMAIN t.L /\ DepsAllLoaded(t.L, n)
     \* nothing else gets loaded than dependencies, each from the first directory having
     \* <dep>-<recorded version>.typelib   (in the silent zones: from SOME good file)
     [] k = "OnlyClosure" ->
@@ -478,7 +489,7 @@ Conseq(k, dk, s, c, o, t) ==
     \* OTHER version is listed.
     [] k = "X_EnumerateLoaded" -> L[c.ns].c.ver \in o.names
 
-ClauseNames == {"PathFrame", "PrependFront", "QueryPure", "ResultKind", "EagerStable", "LazyStable", "Hit", "Conflict", "NotFound", "Refused", "LoadedRight", "DepsOutcome", "LazyOutcome", "FailRegistersNot", "OnlyClosure", "ZoneConsistent", "Q_Loaded", "Q_Version", "Q_Path", "Q_ImmediateDeps", "Q_Deps", "Q_Enumerate", "Q_IsRegistered"}
+ClauseNames == {"PathFrame", "PrependFront", "QueryPure", "ResultKind", "EagerStable", "LazyStable", "Hit", "Conflict", "NotFound", "Refused", "LoadedRight", "DepsOutcome", "LazyOutcome", "FailRegistersNot", "ClosureLoaded", "OnlyClosure", "ZoneConsistent", "Q_Loaded", "Q_Version", "Q_Path", "Q_ImmediateDeps", "Q_Deps", "Q_Enumerate", "Q_IsRegistered"}
 
 ExtraNames == {"X_EnumerateLoaded"}
 ExtraBroken(dk, s, c, o, t) == {k \in ExtraNames : Ante(k, dk, s, c, o) /\ ~Conseq(k, dk, s, c, o, t)}
